@@ -12,6 +12,7 @@ package shared
 
 import (
 	"bytes"
+	"context"
 	"encoding/json"
 	"fmt"
 	cid "github.com/ipfs/go-cid"
@@ -140,6 +141,13 @@ type world struct {
 	namedRoot  datamodel.Node
 }
 
+// basicOnlyStore hides everything but the three basic calls of a store.
+type basicOnlyStore struct{ s *memstore.Store }
+
+func (b basicOnlyStore) Has(ctx context.Context, k string) (bool, error)   { return b.s.Has(ctx, k) }
+func (b basicOnlyStore) Get(ctx context.Context, k string) ([]byte, error) { return b.s.Get(ctx, k) }
+func (b basicOnlyStore) Put(ctx context.Context, k string, c []byte) error { return b.s.Put(ctx, k, c) }
+
 // failingWriter fails its n-th Write (a consumer's writer is the consumer's own; encoding a shared node into it is a read of the node).
 type failingWriter struct{ n, at int }
 
@@ -196,6 +204,11 @@ func buildWorld(t *sim.Tape) *world {
 		w.lsys.SetReadStorage(ms)
 		w.lsys.SetWriteStorage(ms)
 		w.backend = "memstore"
+		if t.Bool("cfg.basiconly") {
+			// a store that offers only Has / Get / Put: reads go through the storage package's fallbacks
+			w.lsys.SetReadStorage(basicOnlyStore{ms})
+			w.backend = "memstore behind Has/Get/Put only"
+		}
 	}
 	g, err := gen.NewGraph(t, &w.lsys, 6, 0)
 	if err != nil {
@@ -346,11 +359,11 @@ func avHash(n datamodel.Node) string {
 	return fmt.Sprintf("%x", v.Hash())
 }
 
-const nOps = 48
+const nOps = 49
 
 var opNames = []string{"read-basicnode", "read-bindnode-type", "read-bindnode-repr", "deepequal", "copy", "encode-dagcbor", "encode-dagjson", "encode-bindnode-repr",
 	"computelink", "load", "loadraw", "walkadv", "walkmatching", "get-path", "build-from-shared-prototype", "wrap-with-shared-type", "wrap-inferred", "registry-lookup",
-	"print", "read-gendemo", "build-gendemo", "compile-selector", "typesystem-read", "prototype-inferred", "encode-to-failing-writer", "encode-after-failed-encode", "decode-dagcbor", "decode-dagjson-into-shared-prototype", "focused-transform-of-shared-node", "walk-transform-of-shared-node", "loadplusraw", "fill", "walk-stream-bytes-subset", "read-stream-backed-bytes", "read-vocabulary-node", "walk-with-seeded-selector", "subset-of-stream-that-cannot-seek-to-its-end", "load-raw-codec-block-and-read-it-later", "read-shared-subset-match-node", "new-default-linksystem", "select-links", "load-schema-dsl", "fluent-qp-build", "read-copy-of-stream-backed-bytes", "lookup-in-struct-keyed-map", "walk-transform-with-shared-selector-naming-children", "walk-with-shared-selector-naming-children", "prototype-with-go-type-inferred-from-schema"}
+	"print", "read-gendemo", "build-gendemo", "compile-selector", "typesystem-read", "prototype-inferred", "encode-to-failing-writer", "encode-after-failed-encode", "decode-dagcbor", "decode-dagjson-into-shared-prototype", "focused-transform-of-shared-node", "walk-transform-of-shared-node", "loadplusraw", "fill", "walk-stream-bytes-subset", "read-stream-backed-bytes", "read-vocabulary-node", "walk-with-seeded-selector", "subset-of-stream-that-cannot-seek-to-its-end", "load-raw-codec-block-and-read-it-later", "read-shared-subset-match-node", "new-default-linksystem", "select-links", "load-schema-dsl", "fluent-qp-build", "read-copy-of-stream-backed-bytes", "lookup-in-struct-keyed-map", "walk-transform-with-shared-selector-naming-children", "walk-with-shared-selector-naming-children", "prototype-with-go-type-inferred-from-schema", "merge-shared-type-system-into-a-private-one"}
 
 // doOp performs one read-only operation on the shared world and returns a digest of its result.
 func (w *world) doOp(op, arg int) string {
@@ -718,6 +731,18 @@ func (w *world) doOp(op, arg int) string {
 			return nil
 		})
 		return fmt.Sprintf("%s %v", sb.String(), err != nil)
+	case 48:
+		// a caller builds its own type system out of the shared one: a read of the shared one
+		target := new(schema.TypeSystem)
+		target.Init()
+		if arg%2 == 1 {
+			// ... into one that has some of the names already (duplicates are skipped)
+			target.Accumulate(schema.SpawnString("Person"))
+			target.Accumulate(schema.SpawnInt("Point"))
+		}
+		schema.MergeTypeSystem(target, w.ts, true)
+		names := target.Names()
+		return fmt.Sprintf("%d names, first %v", len(names), names[0])
 	case 47:
 		// the Go type is inferred from the schema type (no Go type given): every caller gets a working prototype
 		names := []string{"Person", "Point", "Animal", "SKMap"}
